@@ -61,7 +61,8 @@ Definition pack_row (bits : Z) (idx : list Z) : list Z := pack_bits bits idx 0 0
 Definition bits_for (n : Z) : Z := if n <=? 2 then 1 else if n <=? 4 then 2 else 4.
 
 (* ---------------------------------------------------------------- one ZRLE / TRLE tile *)
-(* kind of the previous tile for TRLE reuse: 0 none, 1 packed palette, 2 palette RLE *)
+(* kind of the palette the previous tile left behind, for TRLE reuse: 0 none, 1 packed palette (or 127 reuse), 2 palette RLE;
+   a 129 reuse leaves it as it was *)
 Definition tile_body (ch : Z -> Z) (base : Z) (f : pixfmt) (trle : bool) (rows : list (list Z))
            (prevkind : Z) (prevpal : list Z) : list Z * Z * list Z :=
   let pix := concat rows in
@@ -78,8 +79,9 @@ Definition tile_body (ch : Z -> Z) (base : Z) (f : pixfmt) (trle : bool) (rows :
   else if mode =? 1 then
     (if n =? 1 then ([1] ++ cp (nth 0 cols 0), 0, []) else raw)
   else if mode =? 2 then
-    (* packed palette, possibly padded; TRLE: reuse (127) when the previous tile was packed with a covering palette *)
-    if trle && (prevkind =? 1) && reuse_ok && (pick ch (base + 2) 2 =? 0) then
+    (* packed palette, possibly padded; TRLE: reuse (127) when the previous tile carried a covering palette of at most
+       16 entries - as a packed palette (prevkind 1) or as a palette-RLE palette (prevkind 2) *)
+    if trle && ((prevkind =? 1) || (prevkind =? 2)) && (zlen prevpal <=? 16) && reuse_ok && (pick ch (base + 2) 2 =? 0) then
       ([127] ++ flat_map (fun r => pack_row (bits_for (zlen prevpal)) (map (fun p => index_of p prevpal) r)) rows, 1, prevpal)
     else if (2 <=? n) && (n <=? 16) || (n =? 1) then
       let extra := Z.min (pick ch (base + 3) 4) (16 - n) in
@@ -94,7 +96,7 @@ Definition tile_body (ch : Z -> Z) (base : Z) (f : pixfmt) (trle : bool) (rows :
     let prle pal := flat_map (fun cn : Z * Z =>
                                 if snd cn =? 1 then [index_of (fst cn) pal]
                                 else [index_of (fst cn) pal + 128] ++ runlen_bytes (snd cn)) (rle cap pix) in
-    if trle && (prevkind =? 2) && reuse_ok && (pick ch (base + 2) 2 =? 0) then ([129] ++ prle prevpal, 2, prevpal)
+    if trle && ((prevkind =? 1) || (prevkind =? 2)) && reuse_ok && (pick ch (base + 2) 2 =? 0) then ([129] ++ prle prevpal, prevkind, prevpal)
     else if n <=? 127 then
       let extra := Z.min (pick ch (base + 3) 4) (127 - n) in
       let extra := if n + extra <? 2 then 1 else extra in
